@@ -43,7 +43,10 @@ def run(ctx):
     # (a) expressions
     for it in range(12 if ctx.quick else 1200):
         k = rng.choice([2, 2, 3, 3, 4])
-        vss = impl.leaf_family(ctx, k)
+        if it % 3 == 2:
+            vss, unit = impl.scaled_family(ctx, min(k, 3))
+        else:
+            vss = impl.leaf_family(ctx, k)
         e = impl.rand_expr(rng, range(k))
         desc = {"leaves": vss, "expr": impl.show_expr(e)}
         ctx.sample(core.jsonable(desc), limit=2)
